@@ -470,6 +470,9 @@ func (g *genCtx) fieldType(t *rapid.T, depth int) TypeSpec {
 	switch rapid.SampledFrom(choices).Draw(t, "fieldkind") {
 	case "scalar":
 		ts = g.scalarType(t, false)
+		if rapid.IntRange(0, 4).Draw(t, "nullablescalar") == 0 {
+			ts.Nullable = true // OpenAPI `nullable: true`
+		}
 	case "constscalar":
 		ts = g.scalarType(t, true)
 	case "ref":
